@@ -192,6 +192,24 @@ PLANS = {
                 "a real merge that passed",
         "assumptions": COMMON_ASSUMPTIONS + ["single-token numeral normalisation counts as a degenerate merge (the repository's own tests require 一 -> 1)"],
     },
+    "C13": lambda tier: {
+        "level": "exploration",
+        "stages": [main_stage(40, 300, tier)],
+        "require": ["positions_checked", "oov_candidates_expected", "run_lengths_checked", "texts_with_runs_longer_than_one", "oov_morphemes_checked"],
+        "rule": "seeded definition sets: char.def giving each of 21 alphabet characters (letters, digits, kana, kanji, 々, emoji + skin-tone "
+                "modifier, combining mark, Greek, Cyrillic, space) 1-3 classes, ALL for modifiers / combining marks, NOOOVBOW / NOOOVBOW2, "
+                "overlapping ranges; category table with random invoke/group/length per class; unk.def with 0-3 lines per class; provider "
+                "stacks = any order of MeCab and Regex (strict/relaxed, max length 2/3/32/100, patterns incl. empty-matching and 70-char "
+                "ones) followed by Simple; a small dictionary over the same alphabet. Texts of 1-12 character runs (1-3 repeats, sometimes "
+                "65-75 repeats). Per text: classes, word-start permission and class-run lengths of the built InputBuffer vs the model "
+                "(left-to-right segmentation, two readings of 'class in common'); at EVERY reachable lattice position (hook H4) the set of "
+                "OOV nodes (begin,end,left,right,cost,POS) vs the model of the provider chain incl. the created-words bitmap and fallback "
+                "re-invocation; OOV morphemes report is_oov, dictionary -1, a candidate POS and the normalised slice as forms. "
+                "distinct_nontrivial = distinct (definitions,text) that passed all comparisons",
+        "assumptions": COMMON_ASSUMPTIONS + ["dictionary candidates at a position are taken from the observed lattice (checked by C02/C04)",
+                                             "the regex crate is the trusted base for the regex provider's reference",
+                                             "duplicated candidates are ignored (the property speaks of which candidates exist)"],
+    },
 }
 
 
